@@ -10,7 +10,7 @@ _gen = os.path.join(os.path.dirname(os.path.dirname(os.path.dirname(
 _spec = importlib.util.spec_from_file_location('c09_packed_inst', _gen)
 _m = importlib.util.module_from_spec(_spec)
 _spec.loader.exec_module(_m)
-_NTU = 8
+_NTU = 12
 _INST = [c['name'] for c in _m.configs()]
 
 PROP = dict(
@@ -19,15 +19,28 @@ PROP = dict(
     level_text=('generated-input search over %d compile-time instantiations '
                 'of varintPacked.h (every width 1..32 x slot type u8/u16/u32/'
                 'u64 in which an element spans at most two slots, COMPACT with '
-                'its own slot choice, and the value / micro-promotion / '
-                'length-type variants the tree instantiates) x operation '
-                'histories on arrays of up to 300 elements; reference '
+                'its own slot choice, the value / micro-promotion / '
+                'length-type variants the tree instantiates, and '
+                'PACK_MAX_ELEMENTS 255 / 3700 / 10000 / 65535 / 70000 / 5e9 '
+                '(uint8/16/32/64 length types) x widths 1, 7, 12, 13, 24, 32 '
+                'x slot types) x operation histories on arrays of up to 300 '
+                'elements and, for a fixed ~1 %% share (quick; ~2.7 %% '
+                'thorough), on large arrays of up to PACK_MAX_ELEMENTS (70000 '
+                'without limit) elements with operations concentrated at the '
+                'last elements and around bit positions 2^16..2^21; reference '
                 'uint32_t[] model compared element by element after every '
-                'operation, tail bits of the last slot and guards compared, '
+                'operation (large arrays: storage bytes outside the written '
+                'elements compared with a shadow copy, watched regions and the '
+                'written range read back, everything read back at the end and, '
+                'up to 12000 elements, after every operation), tail bits of '
+                'the last slot and guards compared, '
                 'storage of exactly the needed slots (ASan redzone / '
                 'canaries), and under ASan every set/get repeated on a copy '
                 'with every other slot poisoned; plus a deterministic sweep of '
-                'every start-bit phase of every instantiation' % len(_INST)),
+                'every start-bit phase of every instantiation, of one '
+                'maximum-length array per instantiation, and of the elements '
+                'around bit position 2^32 in a sparse mapping for every '
+                'instantiation that can address them' % len(_INST)),
     level_note=('trusts the harness reference model (array shifts, linear '
                 'lower bound), the slot arithmetic used to size the storage '
                 'and to place the poison (first/last bit of element i divided '
@@ -35,18 +48,21 @@ PROP = dict(
                 'sampled, not enumerated; ASan poisoning is exact to the byte '
                 'after the element and to the 8-byte granule in front of it '
                 '(the copy is placed so that the element starts a granule)'),
-    rule=('case = (instantiation, n <= 300, background fill, mode, up to 28 '
-          '(56 thorough) records); positional mode: set/get/incr/half on any '
+    rule=('case = (instantiation, n <= 300 or a large n up to the '
+          'instantiation\'s maximum / 70000, background fill, mode, up to 28 '
+          '(56 thorough) records, 8-16 (16-32) in a large history); '
+          'positional mode: set/get/incr/half on any '
           'element, insert with len < n, delete with len <= n; sorted mode: '
           'insertSorted/member/deleteMember/binarySearch/delete/get on a '
           'sorted live prefix, values biased to existing members +-1, 0, '
           'mask; non-trivial = at least one record addresses an element that '
           'straddles two slots, or an insert/delete that shifts >= 1 element; '
           'distinct by hash of (instantiation, header, decoded records)'),
-    # measured: asan 12.4k, rel 45k, dbg 38k histories/s/worker at maxlen 200;
+    # measured: asan 12.4k, rel 45k, dbg 38k small histories/s/worker at maxlen
+    # 200; a large history costs ~2.2 ms (asan), ~0.6 ms (rel), ~1 ms (dbg);
     # asan gets half of the workers (and of the cases), so every worker runs
     # cases/16 histories
-    quick=dict(configs=['asan', 'rel', 'dbg'], cases=8000000, maxlen=200,
+    quick=dict(configs=['asan', 'rel', 'dbg'], cases=6000000, maxlen=200,
                shares=dict(asan=2, rel=1, dbg=1), reg_timeout=60),
     thorough=dict(configs=['asan', 'rel', 'dbg'], cases=30000000, maxlen=400,
                   shares=dict(asan=2, rel=1, dbg=1), reg_timeout=120,
@@ -59,11 +75,23 @@ PROP = dict(
         'op.insert', 'op.delete', 'op.insertSorted', 'member.hit',
         'member.miss', 'deleteMember.hit', 'deleteMember.miss',
         'op.binarySearch', 'binarySearch.end', 'insert.at-capacity',
-        'last-element', 'iso.poisoned', 'incr.to-max'],
+        'last-element', 'iso.poisoned', 'incr.to-max',
+        # large arrays
+        'large', 'large.positional', 'large.sorted', 'large.n-at-max',
+        'large.init-setall', 'large.last-element', 'large.first-64',
+        'large.shift-over-1000', 'bitpos.ge-2^16', 'bitpos.crossing-2^16',
+        'bitpos.crossing-2^17..21', 'len.gt-65535', 'large.unlimited',
+        'sweep.bitpos-2^32',
+        ] + ['large.max%d' % m for m in sorted(set(
+            c['maxel'] for c in _m.configs() if c['maxel']))],
     assumptions=COMMON_ASSUME + [
         'only instantiations in which an element never spans more than two '
         'slots (B <= S + gcd(B, S)) are generated; values fit the mask; '
         'increments are non-negative with the sum inside the mask',
+        'an instantiation with PACK_MAX_ELEMENTS never sees an index or a '
+        'length above that limit (n <= PACK_MAX_ELEMENTS); bit positions at '
+        'and beyond 2^32 (>= 512 MiB of storage) are only visited by the '
+        'fixed script of the deterministic sweep, not by generated histories',
         'the caller tracks the length: Insert/InsertSorted are called with '
         'len <= n-1 (they write element [len], the storage has room for n), '
         'Delete with 1 <= len <= n and offset < len, Member/BinarySearch/'
